@@ -406,7 +406,24 @@ pub fn first_violation(events: &[Event], guards: &[String]) -> Option<(usize, St
                     return Some((i, "checkpoint_with_open_txn".into()));
                 }
             }
-            Event::Analyze | Event::Check | Event::TxnBurst(_) => {}
+            Event::Probe(Probe::Join { left, right, lcol, rcol }) if has("join_on_column_holding_null") => {
+                let tx = st.model.begin();
+                let mut bad = false;
+                for (t, c) in [(left, lcol), (right, rcol)] {
+                    if let Some(ti) = st.model.find_table(tx, t) {
+                        if let Some(ci) = st.model.tables[ti].col(c) {
+                            if st.model.visible_rows(tx, ti).iter().any(|(_, r)| r[ci].is_null()) {
+                                bad = true;
+                            }
+                        }
+                    }
+                }
+                st.model.abort(tx);
+                if bad {
+                    return Some((i, "join_on_column_holding_null".into()));
+                }
+            }
+            Event::Analyze | Event::Check | Event::TxnBurst(_) | Event::Probe(_) => {}
         }
     }
     None
